@@ -612,7 +612,12 @@ def main(ctx):
     # ------------------------------------------------------------------- box
     def one_box(case, rec):
         rar, decr, system, kind, tl, tb = case
-        mk = list if kind == "list" else (tuple if kind == "tuple" else (lambda v: np.array(v, dtype="f8")))
+        if kind.startswith("arr-"):
+            mk = (lambda v, _t=kind[4:]: np.array(v, dtype=_t))       # the limits as a narrow / other numeric array type
+        elif kind == "pyint":
+            mk = (lambda v: [int(t) for t in v])
+        else:
+            mk = list if kind == "list" else (tuple if kind == "tuple" else (lambda v: np.array(v, dtype="f8")))
         n = len(tl)
         stub = StubRng([tl, tb])
         try:
@@ -675,6 +680,17 @@ def main(ctx):
     units_box = [(rar, decr, system, kind) for (rar, decr) in boxes for system in ("eq", "xyz")
                  for kind in ("list", "tuple", "array")]
 
+    # integral limits given as narrow numpy integer arrays, float32 arrays and Python ints: the value of the limit
+    # counts, not the arithmetic of its type (90 + int8(60) wraps)
+    IBOXES = [((10, 100), (40, 60)), ((0, 120), (-60, -38)), ((0, 360), (-90, 90)), ((100, 101), (38, 39)), ((0, 127), (-90, 0)), ((3, 4), (89, 90))]
+    for (rar, decr) in IBOXES:
+        for t_ in ("i1", "u1", "i2", "u2", "i4", "i8"):        # (float32 limits may be processed in single precision, see ASSUMPTIONS)
+            ii = np.iinfo(t_) if t_[0] in "iu" else None
+            if ii is not None and not all(ii.min <= v <= ii.max for v in rar + decr):
+                continue
+            units_box.append((tuple(float(v) for v in rar), tuple(float(v) for v in decr), "eq", "arr-" + t_))
+        units_box.append((tuple(float(v) for v in rar), tuple(float(v) for v in decr), "xyz", "pyint"))
+
     def expand_box(u):
         rar, decr, system, kind = u
         for (a, b) in tpairs:
@@ -683,7 +699,8 @@ def main(ctx):
         yield (rar, decr, system, kind, (), ())
 
     ctx.lattice("box", units_box, one_box, expand=expand_box, engine="environment",
-                bounds=dict(boxes=boxes, t=ts, systems=["eq", "xyz"], range_containers=["list", "tuple", "array"]))
+                bounds=dict(boxes=boxes, t=ts, systems=["eq", "xyz"], range_containers=["list", "tuple", "array"],
+                            typed_limits=dict(boxes=[list(map(list, b)) for b in IBOXES], types=["i1", "u1", "i2", "u2", "i4", "i8", "Python int"])))
 
     # --------------------------------------------------------------- sampler
     def sampler_setup(mode, xs, spec, cumulative):
@@ -990,6 +1007,74 @@ def main(ctx):
             yield (mname, cov, entry, n, ("e", i))
         yield (mname, cov, entry, n, "ones")
         yield (mname, cov, entry, n, "ramp")
+
+    # long tables tabulated far into a tail (the end of the cumulative table is saturated: its last entries differ by
+    # less than an ulp of the total) and deviates in the top few ulps of [0,1]: a normalisation that is not EXACTLY the
+    # last cumulative value leaves those deviates beyond the table, and the extrapolation along a flat last interval
+    # is infinite.  Oracle: finite, inside the grid, non-decreasing in u, and (below u = 0.999) equal to the float
+    # linear interpolation of the grid against cumulative_trapezoid/its last value.
+    TAILS = {"exp(0,50,501)": (0.0, 50.0, 501, lambda x: np.exp(-x)), "halfgauss(0,10,201)": (0.0, 10.0, 201, lambda x: np.exp(-0.5 * x * x)),
+             "gauss(-9,9,181)": (-9.0, 9.0, 181, lambda x: np.exp(-0.5 * x * x)), "exp(0,700,1401)": (0.0, 700.0, 1401, lambda x: np.exp(-x)),
+             "lorentz(-50,50,1001)": (-50.0, 50.0, 1001, lambda x: 1.0 / (1.0 + x * x))}
+    TOPU = [1.0] + [1.0 - k * E53 for k in (1, 2, 3, 4, 8, 16, 20, 21, 32, 64, 1024)] + [0.999, 0.9, 0.5, 0.1, 1e-3, E53, 0.0]
+
+    def one_tail(case, rec):
+        tname, mode, form = case
+        a, b, nx, f = TAILS[tname]
+        xg = np.linspace(a, b, nx)
+        stub = StubRng()
+        try:
+            if mode == "tab":
+                g = erandom.Generator(f(xg), x=xg.copy(), rng=stub)
+            elif mode == "func-x":
+                g = erandom.Generator(f, x=xg.copy(), rng=stub)
+            else:
+                g = erandom.Generator(f, xrange=[a, b], nx=nx, rng=stub)
+        except Exception as e:
+            return rec.fail(case, "Generator(...) raised %s: %s" % (type(e).__name__, e))
+        us = sorted(TOPU)
+        try:
+            if form == "vector":
+                stub.queue = [np.array(us, dtype="f8")]
+                got = np.asarray(g.sample(len(us)), dtype="f8")
+            else:
+                got = []
+                for u in us:
+                    stub.queue = [np.array([u], dtype="f8")]
+                    got.append(float(np.asarray(g.sample(1)).reshape(-1)[0]))
+                got = np.array(got)
+        except Exception as e:
+            return rec.fail(case, "sample raised %s: %s" % (type(e).__name__, e))
+        if got.shape != (len(us),):
+            return rec.fail(case, "sample returned shape %r" % (got.shape,))
+        span = b - a
+        p0 = f(xg)
+        c0 = 0.5 * (p0[0] + p0[1]) * (xg[1] - xg[0]) / float(np.sum(0.5 * (p0[1:] + p0[:-1]) * np.diff(xg)))
+        for u, v in zip(us, got.tolist()):
+            if not math.isfinite(v):
+                return rec.fail(case, "deviate u=%r (1-u=%g) gave the non-finite value %r" % (u, 1.0 - u, v))
+            # (below the first tabulated cumulative value the map extrapolates: outside the statement)
+            if u >= c0 * (1 + 1e-9) and not (a - 1e-9 * span <= v <= b + 1e-9 * span):
+                return rec.fail(case, "deviate u=%r (1-u=%g) gave %r outside the grid [%r, %r]" % (u, 1.0 - u, v, a, b))
+        if np.any(np.diff(got) < -1e-9 * span):
+            k = int(np.argmin(np.diff(got)))
+            return rec.fail(case, "the map is decreasing in u: u=%r -> %r, u=%r -> %r" % (us[k], got[k], us[k + 1], got[k + 1]))
+        p = f(xg)
+        c = np.concatenate([[0.0], np.cumsum(0.5 * (p[1:] + p[:-1]) * np.diff(xg))])[1:]
+        c = c / c[-1]
+        for u, v in zip(us, got.tolist()):
+            if c[0] <= u <= 0.999:
+                k = int(np.searchsorted(c, u, side="right")) - 1
+                k = min(max(k, 0), c.size - 2)
+                ref = xg[1:][k] + (u - c[k]) * (xg[1:][k + 1] - xg[1:][k]) / (c[k + 1] - c[k])
+                if abs(v - ref) > 1e-7 * span:
+                    return rec.fail(case, "deviate u=%r gave %r, interpolation of the grid against the normalised cumulative gives %r" % (u, v, float(ref)))
+        rec.ok(case, outcome="tail:%s:%s" % (mode, form), nontrivial=True, calls=len(us) if form != "vector" else 1)
+
+    import math
+    tunits2 = [(t, m, fm) for t in TAILS for m in ("tab", "func-x", "func-xrange") for fm in ("vector", "single")]
+    ctx.lattice("sampler-saturated-tails", tunits2, one_tail, engine="environment",
+                bounds=dict(tables=sorted(TAILS), deviates=["1", "1 - k*2^-53 for k in 1,2,3,4,8,16,20,21,32,64,1024", 0.999, 0.9, 0.5, 0.1, 1e-3, "2^-53", 0]))
 
     ctx.lattice("cholesky", units_ch, one_chol, expand=expand_chol, engine="environment",
                 bounds=dict(matrices=[m[0] for m in mats], n=ns_ch + [None], deviates=["e_i for every i", "ones", "ramp"],
